@@ -33,7 +33,8 @@ Sensible == badschema <= Len(coll) /\ (badschema # 0 => Len(coll) > 1)
 Export == pc = "done" /\ Sensible => PrintT(ToJson([files |-> coll, way |-> way, pathkind |-> pathkind, verify |-> verify,
                                                      badschema |-> badschema, rows |-> ExpectRows, reject |-> MustReject]))
 RowsAll == {0, 1, 2}
-ShapesAll == {"flat", "hive", "drill"}
+(* hive2 / drill2: two directory levels, the second key being 3 - key (two files with different keys differ at BOTH levels) *)
+ShapesAll == {"flat", "hive", "drill", "hive2", "drill2"}
 WaysAll == {"list", "dir", "glob", "merge"}
 PathsAll == {"abs", "rel"}
 =============================================================================
